@@ -829,6 +829,20 @@ theorem runFrom_reached (tx : List TOp) (w0 : WState) : ∀ (rest : List TOp) (i
 theorem before_zero (w : WState) (tx : List TOp) : w.before tx 0 = some w := by
   unfold WState.before; simp [WState.runFrom]
 
+/-- every `end_flashloan` of a committed transaction ran, and succeeded, on the state it found -/
+theorem tx_endflash_ran {w w' : WState} {tx : List TOp} (h : w.runTx tx = some w')
+    {j k s : Nat} (hj : tx[j]? = some (.endFlash k s)) :
+    ∃ (wj : WState) (a : AcctV) (f : Nat), w.before tx j = some wj ∧ wj.accts[k]? = some a ∧ endFlashloan (wj.actx a s) 1 = .ok f := by
+  obtain ⟨wj, wj', hbj, hst⟩ := runFrom_reached tx w tx 0 w w' rfl (before_zero w tx) h j _ (Nat.zero_le _) hj
+  simp only [WState.stepIn] at hst
+  split at hst
+  · rename_i a ha
+    split at hst
+    · rename_i f hf
+      exact ⟨wj, a, f, hbj, ha, hf⟩
+    · cases hst
+  · cases hst
+
 /-- `runFrom_at`, naming the reached state: instruction `j` of a committed transaction ran, and succeeded, on `w0.before tx j`,
     where every raised in-flash-loan flag still has its `end_flashloan` ahead -/
 theorem runFrom_at_b (tx : List TOp) (w0 : WState) : ∀ (rest : List TOp) (i : Nat) (w w' : WState), tx.drop i = rest →
@@ -972,7 +986,7 @@ theorem tx_borrow_checked {w w' : WState} {tx : List TOp} (h : w.runTx tx = some
     (∃ (wi : WState) (a : AcctV) (b : WBank) (o : Out), w.before tx i = some wi ∧ wi.accts[ai]? = some a ∧ wi.banks[bi]? = some b ∧
         borrow (wi.ctx a b signer b.v.liquidityVault 0) amount = .ok o ∧ inFlash a = false ∧
         initHealth (wi.ctx a b signer b.v.liquidityVault 0) o.slots o.books = .ok ()) ∨
-    (∃ (j s : Nat) (wj : WState) (a : AcctV) (f : Nat), i < j ∧ tx[j]? = some (.endFlash ai s) ∧ wj.accts[ai]? = some a ∧
+    (∃ (j s : Nat) (wj : WState) (a : AcctV) (f : Nat), i < j ∧ tx[j]? = some (.endFlash ai s) ∧ w.before tx j = some wj ∧ wj.accts[ai]? = some a ∧
         endFlashloan (wj.actx a s) 1 = .ok f) := by
   have hp0 : Pending tx 0 w := by
     intro k a hk hf
@@ -992,8 +1006,8 @@ theorem tx_borrow_checked {w w' : WState} {tx : List TOp} (h : w.runTx tx = some
         obtain ⟨j, s, hij, hj⟩ := hpi ai a ha hfa
         have hne : j ≠ i := by
           intro e; subst e; rw [hi] at hj; cases hj
-        obtain ⟨wj, a', f, ha', hf⟩ := runFrom_ends tx tx 0 w w' rfl h j ai s (Nat.zero_le _) hj
-        exact ⟨j, s, wj, a', f, by omega, hj, ha', hf⟩
+        obtain ⟨wj, a', f, hbj, ha', hf⟩ := tx_endflash_ran h hj
+        exact ⟨j, s, wj, a', f, by omega, hj, hbj, ha', hf⟩
     · cases hst
   · cases hst
 
@@ -1005,7 +1019,7 @@ theorem tx_liquidate_at {w w' : WState} {tx : List TOp} (h : w.runTx tx = some w
     ∃ (wi : WState) (lq le : AcctV) (ab lb : WBank) (o : LiqOutW), w.before tx i = some wi ∧ wi.accts[qi]? = some lq ∧ wi.accts[ei]? = some le ∧
       wi.banks[abi]? = some ab ∧ wi.banks[lbi]? = some lb ∧ liquidate (wi.liqCtx lq le ab lb signer) amount = .ok o ∧
       (inFlash lq = true → ∃ (j s : Nat) (wj : WState) (a : AcctV) (f : Nat), i < j ∧ tx[j]? = some (.endFlash qi s) ∧
-        wj.accts[qi]? = some a ∧ endFlashloan (wj.actx a s) 1 = .ok f) := by
+        w.before tx j = some wj ∧ wj.accts[qi]? = some a ∧ endFlashloan (wj.actx a s) 1 = .ok f) := by
   have hp0 : Pending tx 0 w := by
     intro k a hk hf
     rw [h0 k a hk] at hf; cases hf
@@ -1022,8 +1036,8 @@ theorem tx_liquidate_at {w w' : WState} {tx : List TOp} (h : w.runTx tx = some w
         obtain ⟨j, s, hij, hj⟩ := hpi qi lq hq hfa
         have hne : j ≠ i := by
           intro e; subst e; rw [hi] at hj; cases hj
-        obtain ⟨wj, a', f, ha', hf⟩ := runFrom_ends tx tx 0 w w' rfl h j qi s (Nat.zero_le _) hj
-        exact ⟨j, s, wj, a', f, by omega, hj, ha', hf⟩
+        obtain ⟨wj, a', f, hbj, ha', hf⟩ := tx_endflash_ran h hj
+        exact ⟨j, s, wj, a', f, by omega, hj, hbj, ha', hf⟩
       · cases hst
     · cases hst
 
@@ -1034,7 +1048,7 @@ theorem tx_withdraw_checked {w w' : WState} {tx : List TOp} (h : w.runTx tx = so
     (∃ (wi : WState) (a : AcctV) (b : WBank) (o : Out), w.before tx i = some wi ∧ wi.accts[ai]? = some a ∧ wi.banks[bi]? = some b ∧
         withdraw (wi.ctx a b signer b.v.liquidityVault vault) amount all = .ok o ∧ inFlash a = false ∧
         withdrawHealth (wi.ctx a b signer b.v.liquidityVault vault) o.slots o.books = .ok ()) ∨
-    (∃ (j s : Nat) (wj : WState) (a : AcctV) (f : Nat), i < j ∧ tx[j]? = some (.endFlash ai s) ∧ wj.accts[ai]? = some a ∧
+    (∃ (j s : Nat) (wj : WState) (a : AcctV) (f : Nat), i < j ∧ tx[j]? = some (.endFlash ai s) ∧ w.before tx j = some wj ∧ wj.accts[ai]? = some a ∧
         endFlashloan (wj.actx a s) 1 = .ok f) := by
   have hp0 : Pending tx 0 w := by
     intro k a hk hf
@@ -1054,8 +1068,8 @@ theorem tx_withdraw_checked {w w' : WState} {tx : List TOp} (h : w.runTx tx = so
         obtain ⟨j, s, hij, hj⟩ := hpi ai a ha hfa
         have hne : j ≠ i := by
           intro e; subst e; rw [hi] at hj; cases hj
-        obtain ⟨wj, a', f, ha', hf⟩ := runFrom_ends tx tx 0 w w' rfl h j ai s (Nat.zero_le _) hj
-        exact ⟨j, s, wj, a', f, by omega, hj, ha', hf⟩
+        obtain ⟨wj, a', f, hbj, ha', hf⟩ := tx_endflash_ran h hj
+        exact ⟨j, s, wj, a', f, by omega, hj, hbj, ha', hf⟩
     · cases hst
   · cases hst
 
